@@ -102,6 +102,13 @@ CHECKS["C05"] = dict(
    note="Trusted: kernel/LAPACK/RNG stubs as in C01/C03 (a stub's output depends only on its inputs); file/pool contracts; real process scheduling and pickling are exercised only in the replay scenario (SerialPool and MultiPool(2)). Equal-seed acceptance across paths is C02's claim.",
    technique="symbolic execution (transliterated .pyx from an arbitrary pre-state; real Python partition code) + z3; scenario replay on the real build",
    ref="3/C05")
+CHECKS["C07"] = dict(
+   text="Unit invariance decided as physical correctness with symbolic unit scales: the data RV unit, the unit of every linear prior, of sigma_K0/max_K/P0, of the period prior and of every prior-sample column are dimension vectors with positive SYMBOLIC scales. "
+        "z3 proves on the transliterated constructor + real _pytensor_get_mean_std that every prior number the kernel keeps is the declared physical value in the data unit; on the real pack() that packed = physical/internal unit; on the real file path that BOTH stages (likelihood worker and the re-read in make_full_samples_worker) feed rows converted to internal units and that returned samples carry those units. "
+        "One recorded .pyx finding (P0 kept in the period prior's unit) is a KNOWN-FINDING.",
+   note="Trusted: multiplicative unit model, Gaussian scaling lemma for the stated consequences, kernel/file stubs as in C01/C02; astropy's conversion tables outside.",
+   technique="symbolic execution with symbolic unit scales + z3 (small NRA with named reciprocals); twin problems in two unit systems replayed on the real build",
+   ref="3/C07")
 NOT_YET = {}
 ALL = ["C%02d" % i for i in range(1, 20)]
 
